@@ -40,6 +40,15 @@ def opC06Template (j : Json) : Except String Json := do
   let values ← (← getArrL j "values").mapM fun v => do pure (← v.getStr?).toList
   let ct := Pinned.classTables
   match ofSegs segs with
+  | .error .noNamed =>
+    -- template without named segment: accepted by the code (key = field), no group
+    let ts := segs.filterMap fun sg => match sg with | .tok t => some t | _ => none
+    pure (Json.mkObj [
+      ("error", Json.str "noNamed"),
+      ("rendered", jstr (renderSegs segs)),
+      ("regex", patternJson (toRegexUnnamed ts)),
+      ("matches", jarr (values.map fun v => Json.bool (matchesUnnamed ct ts v))),
+      ("scanmatches", jarr (values.map fun v => Json.bool (match scanToks ts v with | some (_, []) => true | _ => false)))])
   | .error e => pure (c06ErrJson e)
   | .ok t =>
     pure (Json.mkObj [
@@ -66,6 +75,7 @@ open Model.Routing in
 def opC06Explicit (j : Json) : Except String Json := do
   let ps ← (← getArrL j "params").mapM c06Param
   let reqs ← (← getArrL j "requests").mapM c06Request
+  let cs := (j.getObjValAs? Bool "client_streaming").toOption.getD false
   let ct := Pinned.classTables
   match ps.mapM id with
   | .error e => pure (c06ErrJson e)
@@ -74,13 +84,14 @@ def opC06Explicit (j : Json) : Except String Json := do
       ("keys", jarr (ps.map fun p => jstr (paramKey p))),
       ("results", jarr (reqs.map fun r => Json.mkObj [
         ("pairs", pairsJson (resolveExplicit ct ps r)),
-        ("header", optJson jstr (explicitHeader ct ps r))]))])
+        ("header", optJson jstr (header ct ⟨some ps, [], cs⟩ r))]))])
 
 -- `{"op":"c06.implicit","verbs":[get,put,post,delete,patch,custom],"requests":[{attr: value}]}`
 open Model.Routing in
 def opC06Implicit (j : Json) : Except String Json := do
   let verbs ← (← getArrL j "verbs").mapM fun v => do pure (← v.getStr?).toList
   let reqs ← (← getArrL j "requests").mapM c06Request
+  let cs := (j.getObjValAs? Bool "client_streaming").toOption.getD false
   let ct := Pinned.classTables
   let path := primaryPath verbs
   let hs := fieldHeaders ct path
@@ -91,7 +102,7 @@ def opC06Implicit (j : Json) : Except String Json := do
     ("attrs_valid", jarr (hs.map fun h => Json.bool (attrPathValid (disambiguated h)))),
     ("results", jarr (reqs.map fun r => Json.mkObj [
       ("pairs", pairsJson (implicitPairs hs r)),
-      ("header", optJson jstr (implicitHeader ct path r))]))])
+      ("header", optJson jstr (header ct ⟨none, verbs, cs⟩ r))]))])
 
 -- `{"op":"c06.encode","pairs":[[k,v],…]}`
 open Model.Routing in
@@ -102,8 +113,25 @@ def opC06Encode (j : Json) : Except String Json := do
     | _ => throw "bad pair"
   pure (Json.mkObj [("header", jstr (encodePairs kv))])
 
+def c06DictRequest (j : Json) : Except String Model.Routing.DictRequest := do
+  let o ← j.getObj?
+  let kv : List (String × Json) := o.toList
+  let kvs ← kv.mapM fun (k, v) => do pure (k.toList, (← v.getStr?).toList)
+  pure fun f => (kvs.find? (·.1 = f)).map (·.2)
+
+-- `{"op":"c06.schema","params":[…],"requests":[{field path: value}]}`: `RoutingRule.resolve`
+-- (a field path absent from the object = `_get_field` returned None)
+open Model.Routing in
+def opC06Schema (j : Json) : Except String Json := do
+  let ps ← (← getArrL j "params").mapM c06Param
+  let reqs ← (← getArrL j "requests").mapM c06DictRequest
+  let ct := Pinned.classTables
+  match ps.mapM id with
+  | .error e => pure (c06ErrJson e)
+  | .ok ps => pure (Json.mkObj [("results", jarr (reqs.map fun r => pairsJson (resolveSchema ct ps r)))])
+
 def opsC06 : List (String × (Json → Except String Json)) :=
-  [("c06.template", opC06Template), ("c06.explicit", opC06Explicit),
+  [("c06.template", opC06Template), ("c06.explicit", opC06Explicit), ("c06.schema", opC06Schema),
    ("c06.implicit", opC06Implicit), ("c06.encode", opC06Encode)]
 
 end GapicModel.Driver
